@@ -108,6 +108,11 @@ Resolvable(La) == La.nbad = 0
 \* the enum names of a bit-field are distinct (La.dupenum: registers with a bit-field that has two values under one name) - a
 \* configuration writes the NAME of a value, so only the first value of a name survives GetConfig -> LoadConfig
 EnumNamesUnique(La) == La.dupenum = <<>>
+\* the names of the visible bit-fields of a register are distinct (La.dupfield) - a configuration is a mapping from names to values
+FieldNamesUnique(La) == La.dupfield = <<>>
+\* the bit-fields of a visible register tile it completely (La.uncovered) - its configuration is written bit-field by bit-field, a
+\* bit outside every bit-field does not survive GetConfig -> LoadConfig
+FieldsCover(La) == La.uncovered = <<>>
 
 \* ------------------------------------------------------------------ actions
 Keep == UNCHANGED lay
